@@ -1593,4 +1593,216 @@ theorem QInv.runFrom (cfg : Cfg α) (ops : List (Op α)) {s : State α} (inv : Q
   | nil => exact inv
   | cons op ops ih => exact ih (inv.step cfg op)
 
+/-! ### What handling a frame, or the exit of a connection, can do to OTHER connections -/
+
+/-- Two records agree in everything but the message queue. -/
+def SameButMsgQ (y y' : Conn α) : Prop :=
+  y'.owner = y.owner ∧ y'.v1 = y.v1 ∧ y'.packetQ = y.packetQ ∧ y'.cancelled = y.cancelled ∧
+    y'.exited = y.exited
+
+theorem SameButMsgQ.refl (y : Conn α) : SameButMsgQ y y := ⟨rfl, rfl, rfl, rfl, rfl⟩
+
+theorem trySendMsg_spares (cfg : Cfg α) (s : State α) (c m) (k : Cid) (y : Conn α) (hy : s.conns k = some y) :
+    ∃ y', (trySendMsg cfg s c m).conns k = some y' ∧ SameButMsgQ y y' := by
+  unfold trySendMsg
+  cases hx : s.conns c with
+  | none => exact ⟨y, hy, SameButMsgQ.refl y⟩
+  | some x =>
+    dsimp only
+    split
+    · simp only [emit_conns, setConn_conns]
+      split
+      · subst_vars
+        rw [hx] at hy; cases hy
+        exact ⟨_, rfl, rfl, rfl, rfl, rfl, rfl⟩
+      · exact ⟨y, hy, SameButMsgQ.refl y⟩
+    · exact ⟨y, hy, SameButMsgQ.refl y⟩
+
+theorem trySendHealth_spares (cfg : Cfg α) (s : State α) (c st) (k : Cid) (y : Conn α)
+    (hy : s.conns k = some y) :
+    ∃ y', (trySendHealth cfg s c st).conns k = some y' ∧ SameButMsgQ y y' := by
+  unfold trySendHealth
+  split
+  · exact ⟨y, hy, SameButMsgQ.refl y⟩
+  · exact trySendMsg_spares _ _ _ _ _ _ hy
+
+
+/-- Handling ANY decoded frame `f` read from connection `c`, in ANY state: the registry
+entries do not change, and every connection `c'` keeps its record with the same owner,
+cancellation flag, running flag and message queue; its packet queue is unchanged or got
+exactly one more packet, which passes the forwarder's check. -/
+theorem recvFrame_spares_others (cfg : Cfg α) (s : State α) (c : Cid) (f : C2R α) (c' : Cid) (y : Conn α)
+    (hy : s.conns c' = some y) :
+    (recvFrame cfg s c f).entries = s.entries ∧
+    ∃ y', (recvFrame cfg s c f).conns c' = some y' ∧
+      y'.owner = y.owner ∧ y'.cancelled = y.cancelled ∧ y'.exited = y.exited ∧ y'.msgQ = y.msgQ ∧
+      (y'.packetQ = y.packetQ ∨
+        ∃ src d, y'.packetQ = y.packetQ ++ [(src, d)] ∧ sendable cfg d = true) := by
+  refine ⟨(recvFrame_sameCore cfg s c f).entries, ?_⟩
+  have same : ∃ y', s.conns c' = some y' ∧ y'.owner = y.owner ∧ y'.cancelled = y.cancelled ∧
+      y'.exited = y.exited ∧ y'.msgQ = y.msgQ ∧
+      (y'.packetQ = y.packetQ ∨ ∃ src d, y'.packetQ = y.packetQ ++ [(src, d)] ∧ sendable cfg d = true) :=
+    ⟨y, hy, rfl, rfl, rfl, rfl, Or.inl rfl⟩
+  unfold RelayRegistry.recvFrame
+  split
+  · exact same
+  · split
+    · exact same
+    · split
+      · rename_i x _ _ dst d
+        unfold sendPacket
+        split
+        · exact same
+        · rename_i hs
+          split
+          · exact same
+          · rename_i e _
+            cases ht : s.conns e.active with
+            | none => exact same
+            | some z =>
+              dsimp only
+              split
+              · simp only [emit_conns, setSentTo_conns, setConn_conns]
+                split
+                · subst_vars
+                  rw [ht] at hy; cases hy
+                  exact ⟨_, rfl, rfl, rfl, rfl, rfl, Or.inr ⟨_, _, rfl, by simpa using hs⟩⟩
+                · exact same
+              · exact same
+      · exact same
+      · exact same
+
+
+/-- The exit of the actor of `c` followed by its unregistration leaves every other
+connection's record in place, running, uncancelled, with its packet queue (only message
+queues may get a notice). -/
+theorem exit_unregister_spares_others (cfg : Cfg α) (s : State α) (c c' : Cid) (hne : c' ≠ c) (y : Conn α)
+    (hy : s.conns c' = some y) :
+    ∃ y', (unregister cfg (actorExit s c) c).conns c' = some y' ∧ SameButMsgQ y y' := by
+  have h1 : (actorExit s c).conns c' = some y := by
+    unfold RelayRegistry.actorExit
+    split
+    · exact hy
+    · simp [hne, hy]
+  generalize actorExit s c = t at h1
+  unfold RelayRegistry.unregister
+  split
+  · exact ⟨y, h1, SameButMsgQ.refl y⟩
+  · rename_i x hx
+    have h2 : (setConn t c none).conns c' = some y := by simp [hne, h1]
+    generalize setConn t c none = u at h2
+    unfold unregisterReg
+    split
+    · exact ⟨y, h2, SameButMsgQ.refl y⟩
+    · split
+      · split
+        · exact trySendHealth_spares _ _ _ _ _ _ (by simpa using h2)
+        · exact ⟨y, by simpa using h2, SameButMsgQ.refl y⟩
+      · exact ⟨y, by simpa using h2, SameButMsgQ.refl y⟩
+
+
+/-- The log only grows. -/
+theorem runFrom_log (cfg : Cfg α) (ops : List (Op α)) (s : State α) :
+    ∃ evs, (runFrom cfg s ops).log = s.log ++ evs := by
+  induction ops generalizing s with
+  | nil => exact ⟨[], (List.append_nil _).symm⟩
+  | cons op ops ih =>
+    obtain ⟨e1, h1, _⟩ := step_kinds cfg s op
+    obtain ⟨e2, h2⟩ := ih (step cfg s op)
+    exact ⟨e1 ++ e2, by rw [show runFrom cfg s (op :: ops) = runFrom cfg (step cfg s op) ops from rfl, h2, h1,
+      List.append_assoc]⟩
+
+theorem runFrom_append (cfg : Cfg α) (a b : List (Op α)) (s : State α) :
+    runFrom cfg s (a ++ b) = runFrom cfg (runFrom cfg s a) b := by
+  simp [runFrom, List.foldl_append]
+
+/-! ### Every connection record was created by a registration for its owner -/
+
+def RegLogInv (s : State α) : Prop :=
+  ∀ c x, s.conns c = some x → Event.registered c x.owner ∈ s.log
+
+theorem RegLogInv.init : RegLogInv (init : State α) := fun _ _ h => by simp [RelayRegistry.init] at h
+
+theorem unregisterReg_owner (cfg : Cfg α) (s : State α) (id cid) (k : Cid) :
+    ((unregisterReg cfg s id cid).conns k).map (·.owner) = (s.conns k).map (·.owner) := by
+  unfold unregisterReg
+  split
+  · rfl
+  · split
+    · split
+      · exact (trySendHealth_sameReg _ _ _ _).owner k
+      · rfl
+    · rfl
+
+theorem RegLogInv.step (cfg : Cfg α) {s : State α} (inv : RegLogInv s) (op : Op α) : RegLogInv (RelayRegistry.step cfg s op) := by
+  obtain ⟨evs, hl, _⟩ := step_kinds cfg s op
+  -- records keep their owner; only `register` creates one, and logs it
+  have sub : (∀ k, ((RelayRegistry.step cfg s op).conns k).map (·.owner) = (s.conns k).map (·.owner) ∨
+      (RelayRegistry.step cfg s op).conns k = none ∨
+      ∃ id v1, op = .register id v1 ∧ k = s.nextCid ∧ ((RelayRegistry.step cfg s op).conns k).map (·.owner) = some id) := by
+    intro k
+    cases op with
+    | register id v1 =>
+      by_cases hk : k = s.nextCid
+      · refine Or.inr (Or.inr ⟨id, v1, rfl, hk, ?_⟩)
+        simp only [RelayRegistry.step, register_eq]
+        split
+        · rw [setEntry_conns, (trySendHealth_sameReg _ _ _ _).owner, registerPre_conns, if_pos hk]; rfl
+        · rw [setEntry_conns, registerPre_conns, if_pos hk]; rfl
+      · refine Or.inl ?_
+        simp only [RelayRegistry.step, register_eq]
+        split
+        · rw [setEntry_conns, (trySendHealth_sameReg _ _ _ _).owner, registerPre_conns, if_neg hk]
+        · rw [setEntry_conns, registerPre_conns, if_neg hk]
+    | unregister c =>
+      simp only [RelayRegistry.step, RelayRegistry.unregister]
+      split
+      · exact Or.inl rfl
+      · rename_i x _
+        by_cases hk : k = c
+        · refine Or.inr (Or.inl ?_)
+          have := unregisterReg_owner cfg (setConn s c none) x.owner c k
+          rw [setConn_conns, if_pos hk] at this
+          simpa using this
+        · refine Or.inl ?_
+          rw [unregisterReg_owner, setConn_conns, if_neg hk]
+    | notifyGone => exact Or.inl ((notifyGone_sameCore cfg s).owner k)
+    | disconnect id sel => exact Or.inl ((disconnect_sameReg s id sel).owner k)
+    | recvFrame c f => exact Or.inl ((recvFrame_sameCore cfg s c f).owner k)
+    | deliverPacket c => exact Or.inl ((deliverPacket_sameReg cfg s c).owner k)
+    | deliverMsg c => exact Or.inl ((deliverMsg_sameReg s c).owner k)
+    | actorExit c => exact Or.inl ((actorExit_sameReg s c).owner k)
+    | shutdown => exact Or.inl ((foldl_cancel_sameReg _ s).owner k)
+  intro k x' hx'
+  rw [hl]
+  rcases sub k with h | h | ⟨id, v1, rfl, hk, h⟩
+  · rw [hx'] at h
+    cases hx : s.conns k with
+    | none => rw [hx] at h; simp at h
+    | some x =>
+      rw [hx] at h
+      have : x.owner = x'.owner := by simpa using h.symm
+      rw [← this]
+      exact List.mem_append_left _ (inv k x hx)
+  · rw [hx'] at h; cases h
+  · rw [hx'] at h
+    have hid : x'.owner = id := by simpa using h
+    subst hk
+    -- the registration logged `registered nextCid id`
+    have hlog : Event.registered s.nextCid id ∈ (RelayRegistry.step cfg s (.register id v1)).log := by
+      simp only [RelayRegistry.step, register_eq]
+      split
+      · obtain ⟨e, he⟩ := trySendHealth_log cfg (registerPre s id v1) _ .sameIdConnected
+        rw [setEntry_log, he, registerPre_log]
+        simp
+      · rw [setEntry_log, registerPre_log]; simp
+    rw [hl] at hlog
+    rw [hid]; exact hlog
+
+theorem RegLogInv.runFrom (cfg : Cfg α) (ops : List (Op α)) {s : State α} (inv : RegLogInv s) :
+    RegLogInv (RelayRegistry.runFrom cfg s ops) := by
+  induction ops generalizing s with
+  | nil => exact inv
+  | cons op ops ih => exact ih (inv.step cfg op)
+
 end IrohModel.RelayRegistry
